@@ -17,8 +17,9 @@ import extract_facts as X
 CRATES = ["paseto-v1", "paseto-v2", "paseto-v3", "paseto-v3-aws-lc", "paseto-v4", "paseto-v4-sodium"]
 
 TOKEN = re.compile(
-    r"(?P<guard>\b(?:len|\w+\.len\(\))\s*<\s*(?P<g>\d+))"
-    r"|(?P<split_sub>\bsplit_at(?:_mut)?\(\s*len\s*-\s*(?P<ss>\d+)\s*\))"
+    # `if <length> < N { return Err(..` — the variable holding the length may have any name
+    r"(?P<guard>\bif\s+(?:\w+|\w+\.len\(\))\s*<\s*(?P<g>\d+)\s*\{\s*return\s+Err)"
+    r"|(?P<split_sub>\bsplit_at(?:_mut)?\(\s*(?:\w+|\w+\.len\(\))\s*-\s*(?P<ss>\d+)\s*\))"
     r"|(?P<split>\bsplit_at(?:_mut)?\(\s*(?P<s>\d+)\s*\))"
     r"|(?P<chunk_last>\bsplit_last_chunk(?:_mut)?::<\s*(?P<cl>\d+)\s*>)"
     r"|(?P<chunk_first>\bsplit_first_chunk(?:_mut)?::<\s*(?P<cf>\d+)\s*>)"
